@@ -644,9 +644,18 @@ func propC17(t *rapid.T) {
 			t.Fatalf("in-filter result differs from the model: %s\n%s", diff, full())
 		}
 	case "like":
-		pat := rapid.SampledFrom([]string{"v0%", "%7", "%12%", "v064", "V064", "v1.%", "%[0-3]", "v25%"}).Draw(t, "pattern")
+		pat := rapid.SampledFrom([]string{"v0%", "%7", "%12%", "v064", "V064", "v1.%", "%[0-3]", "v25%", "v\\d+", "v\\D+", "%\\d\\d\\d", "\\D\\d+", "\\w\\d+", "\\W%"}).Draw(t, "pattern")
 		comp := rapid.SampledFrom([]string{"like", "ilike"}).Draw(t, "likecomp")
 		opDesc = fmt.Sprintf("filter e %s %q", comp, pat)
+		if rapid.Bool().Draw(t, "earlierlike") {
+			// the column has answered a related pattern before (the other comparator, or the pattern in the other case:
+			// \d becomes \D)
+			opDesc += " after a filter with the case-swapped pattern / the other comparator"
+			_ = hx.Safely(func() {
+				_ = fq.Filter(qframe.Filter{Column: "e", Comparator: comp, Arg: swapCase(pat)})
+				_ = fq.Filter(qframe.Filter{Column: "e", Comparator: map[string]string{"like": "ilike", "ilike": "like"}[comp], Arg: pat})
+			})
+		}
 		cl := hx.StrConst("e", comp, pat)
 		cl = c17Combine(t, cl, ftab, &opDesc)
 		res := fq.Filter(cl.Build(hx.KindMap(ftab)))
